@@ -9,6 +9,14 @@ BASE = ("Trusted: Coq 8.16.1 kernel (vm_compute; no native_compute), no axioms (
 TECH = "machine-checked proof (Coq) + translator-regenerated tables + model/implementation correspondence"
 
 CLAIMS = {
+    "C06": ("Coq theorems over all byte strings and epochs about a model of Javadoc::process/process_line (two patterns as explicit matchers, chrono's %Y-%m-%d grammar, "
+            "read_line/write with the original terminator; window constant, operators and pattern strings regenerated/compared by the translator): the output has the same lines with the "
+            "same terminators (none/LF/CRLF); a line's content is unchanged or process_line's result; after the header window (line 15 or a line containing </head>) lines are verbatim; "
+            "nothing reported => bytes identical; a changed line only has stamp version/date text removed (all other bytes kept in order) and at most one date value, of the leftmost "
+            "date/dc.created tag that chrono parses to a date later than the epoch's UTC date, replaced by that date. Tied to the code by a differential run over generated documents "
+            "(LF/CRLF/mixed/no final newline, tags embedded in text, several comments, malformed dates, invalid UTF-8, 13 epochs) and a masked-diff oracle.",
+            "Modelled, not verified: regex leftmost-first semantics for the two concrete patterns, chrono's parser and calendar (Date.v), Unicode White_Space; validated by the differential run. "
+            "Idempotence of the javadoc handler is decided under C07.", "DESIGN.md section 5-C06"),
     "C13": ("Coq theorems: (walk) for every list of entries, handler list, mode and single fault, a name that is neither a matching non-temp-named entry nor its hidden temp name is bound "
             "after the walk exactly as before; entries that are temp-named, not regular (symlinks, directories, FIFOs, sockets) or match no enabled handler cause no operation at all; (run) "
             "one handler on one file leaves every other name and every other pre-existing inode unchanged, for any link count, result and fault; (--brp) unset/empty/root build roots are refused "
